@@ -96,6 +96,7 @@ class BaseClient:
         self.handlers = {}
         self.namespace_handlers = {}
         self.callbacks = {}
+        self.ack_counters = {}
         self._binary_packet = None
         self._connect_event = None
         self._reconnect_task = None
@@ -277,8 +278,10 @@ class BaseClient:
         """Generate a unique identifier for an ACK packet."""
         namespace = namespace or '/'
         if namespace not in self.callbacks:
-            self.callbacks[namespace] = {0: itertools.count(1)}
-        id = next(self.callbacks[namespace][0])
+            self.callbacks[namespace] = {}
+        if namespace not in self.ack_counters:
+            self.ack_counters[namespace] = itertools.count(1)
+        id = next(self.ack_counters[namespace])
         self.callbacks[namespace][id] = callback
         return id
 
